@@ -734,7 +734,11 @@ func (fr *Frame) resolveLocalAt(name string, at *ssa.BasicBlock, st *State) (Ter
 			}
 		case *ssa.DebugRef:
 			if id, ok := ins.Expr.(*ast.Ident); ok && id.Name == name {
-				if _, ok := fr.vals[ins.X]; ok {
+				if al := fr.allocOfVar(ins); al != nil && !ins.IsAddr {
+					if _, ok := fr.vals[al]; ok {
+						bestV, isAddr = al, true
+					}
+				} else if _, ok := fr.vals[ins.X]; ok {
 					bestV, isAddr = ins.X, ins.IsAddr
 				} else if _, isC := ins.X.(*ssa.Const); isC {
 					bestV, isAddr = ins.X, ins.IsAddr
@@ -1062,8 +1066,20 @@ func (fr *Frame) execAppend(cc *ssa.CallCommon, args []Term, c *blockCtx) Term {
 		return res
 	}
 	// general case: contents described by quantified assumptions on a havoced heap
+	var bytes0 string
+	if b, ok := et.Underlying().(*types.Basic); ok && b.Kind() == types.Uint8 {
+		bytes0 = g.heap(c.st, g.heapKeyT(et), SInt).S
+	}
 	g.copyElemsQuant(c.st, res.S, s.S, et, not(fits.S))
 	g.appendElemsQuant(c.st, res.S, s.S, add.S, et)
+	if bcat := g.W.abstracts["bcat"]; bytes0 != "" && bcat != nil && len(bcat.Params) == 2 {
+		// abstract content: bytes(append(s, add...)) is the content of s followed by the content of add
+		g.declSort("Bytes")
+		g.sc.DeclareOnce("bytesOf", "(declare-fun bytesOf ((Array Ref Int) Slice) Bytes)")
+		g.declareAbstract(bcat)
+		h1 := g.heap(c.st, g.heapKeyT(et), SInt).S
+		g.sc.Assume(eq(app("bytesOf", h1, res.S), app("bcat", app("bytesOf", bytes0, s.S), app("bytesOf", bytes0, add.S))))
+	}
 	return res
 }
 
